@@ -177,7 +177,14 @@ class TagCx:
                             rr = ("call", rr[1], tuple(frozenset(("param", 3) if y == ("param", 2) else y for y in a) for a in rr[2]), None)
                         base |= self._closure_tags(rr, fake, at_block, depth + 1)
                 else:
-                    return set(ALL)
+                    y = x
+                    while y[0] == "cast":
+                        y = y[1]
+                    if y[0] == "fnitem" and y[1] in ("std::cmp::max", "std::cmp::min"):
+                        # reduce(cmp::max): one of the items
+                        base |= self._closure_tags(("param", 3), fake, at_block, depth + 1)
+                    else:
+                        return set(ALL)
         elif h == "param":
             base = set(ALL)
         else:
